@@ -100,6 +100,17 @@ CHECKS = {
             TB + "ASCII input and the shape of sanitize_name fixed points assumed; float distance functions not proved; Instance.__new__ as "
             "modelled for C05.",
             "Lean 4 proof (token/character two-layer parser model, walker invariant) + correspondence; metrics by differential testing", "6/C18"),
+    "C04": ("proof",
+            "Lean theorem PackVal.validate_ok_iff: for every instance the constructor accepts and every packing object (any dtype tag, "
+            "ragged rows, any n_bins) the statement-by-statement model of PackingSpace.validate returns ok IFF the packing belongs to the "
+            "instance, has its dtype and shape (n_items,6) and satisfies the shared feasibility specification Pack.Feasible (both "
+            "directions: multiplicity check on occurring ids suffices, min/max/len <=> bins 1..k, overlap loop <=> pairwise disjointness); "
+            "fromStr_toStr / fromStr_validates for the text form at character level. Tie: correspondence on verdict AND error kind "
+            "(1.0e5 quick / 1.96e6 thorough cases incl. the complete 3^12 matrix enumeration, ~30 corruption classes) and the spec oracle "
+            "on real validate / from_str / copy results.",
+            TB + "np.fromstring's lenient parser is external (checked on to_str output and wrong-count texts only); TypeError paths, values "
+            "outside the dtype and ndim != 2 arrays are outside the model.",
+            "Lean 4 proof (validator model <=> declarative feasibility, decimal text round trip) + correspondence", "6/C04"),
 }
 NOT_YET = "check not built yet (work in progress; see DESIGN.md section 6)"
 
